@@ -265,8 +265,9 @@ def build_csrevmon(cfg):
     srcs = [event.Source(trigger=t, path=(f"s{i}",)) for i, t in enumerate(cfg["srcs"])]
     for s in srcs:
         em.add(s)
+    kw = {"name": "mon"} if cfg["al"] else {}
     dut = hw.construct(csr.EventMonitor, em, trigger=cfg["trigger"], data_width=cfg["dw"],
-                       alignment=cfg["al"])
+                       alignment=cfg["al"], **kw)
     b = Built(dut, "csr.EventMonitor")
     b.add_component_signature()
     for i, s in enumerate(srcs):
@@ -288,7 +289,8 @@ def build_wb2csr(cfg):
     from amaranth_soc.memory import MemoryMap
     cbus = hw.construct(csr.Interface, addr_width=cfg["caw"], data_width=cfg["cw"], path=("csr",))
     cbus.memory_map = MemoryMap(addr_width=cfg["caw"], data_width=cfg["cw"])
-    dut = hw.construct(WishboneCSRBridge, cbus, data_width=cfg["ww"])
+    kw = {"name": "csr"} if cfg["caw"] % 2 else {}
+    dut = hw.construct(WishboneCSRBridge, cbus, data_width=cfg["ww"], **kw)
     b = Built(dut, "csr.wishbone.WishboneCSRBridge")
     b.add_component_signature()
     b.add_interface(cbus, "csr", dut_is_target=False)
@@ -315,8 +317,9 @@ def build_wbdec(cfg):
     from worlds.wbdec import log2
     spell = (lambda fs: {wishbone.Feature(f) for f in fs}) if cfg.get("feats_as") == "enum" \
         else (lambda fs: set(fs))
+    kw = {"name": "dec"} if cfg.get("twin_decoder") else {}      # rarely used public parameter
     dut = hw.construct(wishbone.Decoder, addr_width=cfg["aw"], data_width=cfg["dw"],
-                       granularity=cfg["g"], features=spell(cfg["feats"]), alignment=cfg["al"])
+                       granularity=cfg["g"], features=spell(cfg["feats"]), alignment=cfg["al"], **kw)
     b = Built(dut, "wishbone.Decoder")
     b.add_component_signature()
     for i, sc in enumerate(cfg["subs"]):
@@ -363,7 +366,10 @@ def build_arbiter(cfg):
     for i, ic in enumerate(cfg["intrs"]):
         ib = hw.construct(wishbone.Interface, addr_width=cfg["aw"], data_width=cfg["dw"],
                           granularity=ic["g"], features=set(ic["feats"]), path=(f"i{i}",))
-        hw.construct(dut.add, ib)
+        try:
+            dut.add(ib)
+        except ValueError:
+            continue        # refused initiator (lacks err/rty): the caller carries on
         b.add_interface(ib, f"i{i}", dut_is_target=True)
     b.port = ("bus", "initiator")
     b.port_params = {"addr_width": cfg["aw"], "data_width": cfg["dw"], "granularity": cfg["g"],
